@@ -8,7 +8,7 @@ export GOFLAGS=-mod=mod GOPROXY=off GOSUMDB=off GOTOOLCHAIN=local
 seed=$(realpath "$1"); shift
 meta="$seed/meta.json"
 prop=$(jq -r .property "$meta"); demo_dir=$(jq -r .demo_dir "$meta"); demo_cmd=$(jq -r .demo_cmd "$meta"); mod=$(jq -r .module "$meta")
-checks=${*:-$prop}
+checks=${*:-$(jq -r '(.checks // [.property]) | join(" ")' "$meta")}
 wt=$(mktemp -d /tmp/seedwt.XXXX); rmdir "$wt"
 git -C /repo worktree add -q --detach "$wt" HEAD || exit 2
 trap 'git -C /repo worktree remove --force "$wt" 2>/dev/null; git -C /repo checkout -q -- . 2>/dev/null' EXIT
